@@ -2,7 +2,7 @@
    files: the model pipeline (prune + writer + printer) against the bytes of
    the file written by the real run. *)
 From Coq Require Import List NArith ZArith Bool String Ascii PrimFloat.
-From T4V Require Import Base.Str Base.Cases Base.Scalar C08.Model C08.SurfEq.
+From T4V Require Import Base.Str Base.Cases Base.Scalar C08.Model C08.SurfEq C08.Parse.
 From Coq Require Import Uint63.
 Import ListNotations.
 Open Scope string_scope.
@@ -43,11 +43,14 @@ Definition payload_eqb : payload -> payload -> bool := spayload_eqb FS.
 Definition err_name (e : err) : string :=
   match e with EKey => "KeyError" | EValue => "ValueError" | EFuel => "fuel" end.
 
-(* what the real run did: exception class name ("" = none) and the lines of
-   the written file after the // header (None = no file) *)
-Definition observed := (string * option (list string))%type.
+(* what the real run did: exception class name ("" = none) and the text of the written file
+   after the // header, as ONE string (None = no file); the lines are recovered by the
+   reader's own lines_of *)
+Definition observed := (string * option string)%type.
 
-Definition run_model (c : bool * Z * Z * wstate payload) : observed :=
+Definition model_result := (string * option (list string))%type.
+
+Definition run_model (c : bool * Z * Z * wstate payload) : model_result :=
   let '(skip_dedup, u0, u1, w) := c in
   match convert_tail payload_eqb skip_dedup u0 u1 w with
   | Err e => (err_name e, None)
@@ -56,8 +59,18 @@ Definition run_model (c : bool * Z * Z * wstate payload) : observed :=
   | Ok (Raised f e) => (err_name e, Some (print_file f))
   end.
 
-Definition observed_eqb (a b : observed) : bool :=
-  String.eqb (fst a) (fst b) && option_eqb (list_eqb String.eqb) (snd a) (snd b).
+Definition obs_lines (o : observed) : option (option (list string)) :=
+  match snd o with
+  | None => Some None
+  | Some t => match lines_of t with Some ls => Some (Some ls) | None => None end
+  end.
+
+Definition observed_eqb (a : model_result) (b : observed) : bool :=
+  String.eqb (fst a) (fst b)
+  && match obs_lines b with
+     | Some ls => option_eqb (list_eqb String.eqb) (snd a) ls
+     | None => false            (* the text does not end with a newline *)
+     end.
 
 Definition check_case (c : (bool * Z * Z * wstate payload) * observed) : bool :=
   observed_eqb (run_model (fst c)) (snd c).
@@ -113,3 +126,17 @@ Definition stage0_ok (c : (bool * Z * Z * wstate payload) * observed * bool) : b
 
 Definition stage0_or_invalid (c : (bool * Z * Z * wstate payload) * observed * bool) : bool :=
   let '(_, _, valid) := c in stage0_ok c || negb valid.
+
+(* ---- the Coq reader on the bytes of the real file: it must accept exactly the files the
+   independent validator accepts, re-printing what it read must give the same bytes, and
+   the spec evaluated on what it read must agree with the validator ---------------------- *)
+Definition check_reader (c : (bool * Z * Z * wstate payload) * observed * bool) : bool :=
+  let '(_, obs, valid) := c in
+  match snd obs with
+  | None => true
+  | Some t =>
+      match parse_t4 t with
+      | Some f => String.eqb (print_t4 f) t && Bool.eqb (wf_fileb f) valid
+      | None => negb valid
+      end
+  end.
